@@ -340,6 +340,6 @@ func TestC19(t *testing.T) {
 	pbt.Main(t, pbt.Prop[Case]{
 		ID: "C19", Name: "multi",
 		Rule: "rapid-generated call histories (1..30 calls, all argument values incl. non-finite floats, int64 extremes, arbitrary byte strings) on a plain or cached multi reporter with 0..5 recording children of all capability combinations; the children's merged global call log must equal, call by call and child by child in registration order, the log predicted from the calls made on the multi reporter. Non-trivial: >=2 children and >=1 histogram bucket call. Distinct: FNV-64 of the case JSON.",
-		Gen:  gen, Run: run,
+		Gen:  gen, Run: run, HangAfter: 20 * time.Second,
 	})
 }
